@@ -13,7 +13,10 @@ fn message_with_htyp(b: u8, msin: u8) -> Vec<u8> { message_with_htyp_fill(b, msi
 fn message_with_htyp_fill(b: u8, msin: u8, zeros: bool) -> Vec<u8> {
     let std = 4 + 4 * ((b >> 2 & 1) + (b >> 3 & 1) + (b >> 4 & 1)) as usize;
     let hdrs = std + if b & 1 == 1 { 10 } else { 0 };
-    let len = (hdrs + 4) as u16;
+    // canonical in every respect but the byte under test: a verbose message announces 0 arguments and has no payload, a non-verbose one
+    // carries its 4-byte message id (a control message: service id and three bytes)
+    let verbose = b & 1 == 1 && msin & 1 == 1;
+    let len = (hdrs + if verbose { 0 } else { 4 }) as u16;
     let mut m = vec![b, 9];
     m.extend(len.to_be_bytes());
     m.extend((0..std - 4).map(|i| if zeros { 0 } else { b'a' + i as u8 }));
@@ -21,7 +24,7 @@ fn message_with_htyp_fill(b: u8, msin: u8, zeros: bool) -> Vec<u8> {
         m.extend([msin, 0]);
         m.extend(b"APP\0CTX\0");
     }
-    m.extend([1, 2, 3, 4]);
+    if !verbose { m.extend([1, 2, 3, 4]); }
     m
 }
 pub fn htyp_event(b: u8) -> J { htyp_event_fill(b, false) }
